@@ -408,3 +408,6 @@ if bad: reproduced(str(bad))
 not_reproduced()
 """
     return None
+
+# level text addendum (cases added after the seeded-change rounds)
+LEVEL_TEXT = LEVEL_TEXT + ' Also: AGC for every whitening term in [1e-8, 1/2], padded k-filter groups, car called twice.'
